@@ -29,9 +29,10 @@ megabyte streams by C03 (`frame.run`).  These scenarios are therefore judged by 
 import asyncio
 import collections
 import json
+import os
 import random
 
-from common import err_name
+from common import err_name, VERIF
 from vloop import VirtualLoop, FakeTransport
 
 POLL = 0.0001               # the reader's poll interval (virtual seconds)
@@ -84,10 +85,11 @@ class Wire:
         for i in range(self.n):
             if hb_every and i and i % hb_every == 0:
                 out.append((self._hb(), None))
-            if self.layer == 'soup-client':
-                out.append((soup.SequencedData(body(i, self.sizes[i])).to_bytes()[1], i))
-            elif self.layer == 'soup-server':
-                out.append((soup.UnSequencedData(body(i, self.sizes[i])).to_bytes()[1], i))
+            if self.layer in SOUP_LAYERS:
+                # framed by hand as the SoupBinTCP document says (2-byte big-endian length of type + payload, type, payload): the
+                # library's own encoder refuses payloads beyond 32766 bytes, a peer may send up to 65534
+                p = body(i, self.sizes[i])
+                out.append(((len(p) + 1).to_bytes(2, 'big') + (b'S' if self.layer == 'soup-client' else b'U') + p, i))
             elif self.layer == 'fix':
                 out.append((self._fix_frame(i), i))
             else:
@@ -350,6 +352,8 @@ def gen_scenario(rng, layer=None, mode=None, thorough=False, family=None):
             sc['n'], sc['sizes'] = rng.randint(60, 200), [8, rng.choice([2000, 6000, 20000])]
             sc['big'] = sorted(rng.sample(range(sc['n']), rng.randint(0, 3)))
             sc['big_size'] = rng.choice([65000, 65534, 32768])
+        while sum(sizes_of(sc)) + 3 * sc['n'] < 100 * KIB:
+            sc['n'] = sc['n'] * 3 // 2 + 1
         if thorough and rng.random() < 0.25:
             sc['n'] *= rng.choice([2, 4])           # up to ~1.5 MiB
     if rng.random() < 0.4:
@@ -401,8 +405,24 @@ def shrink(sc, key, budget=14):
     return cur
 
 
-def check(ctx, sc, tag='gen'):
-    out = run_scenario(sc)
+def run_many(scs):
+    """run_scenario over a list, in forked worker processes (every scenario builds its own loop, transport and sessions; nothing is
+    shared), results in order; in the calling process if the pool cannot be used"""
+    jobs = int(os.environ.get('VERIF_JOBS', '0') or 0) or max(1, min(8, (os.cpu_count() or 2) // 2))
+    if jobs <= 1 or len(scs) < 2:
+        return [run_scenario(sc) for sc in scs]
+    try:
+        import multiprocessing
+        from nasdaq_protocols import soup  # noqa — import the library once, before the fork
+        with multiprocessing.get_context('fork').Pool(min(jobs, len(scs))) as pool:
+            return pool.map(run_scenario, scs, chunksize=1)
+    except Exception:       # noqa — no fork / no semaphores in this environment
+        return [run_scenario(sc) for sc in scs]
+
+
+def check(ctx, sc, tag='gen', out=None):
+    if out is None:
+        out = run_scenario(sc)
     ctx.case({'burst_scenario': describe(sc)}, nontrivial=True, sample_every=3)
     ctx.count(f"burst:{sc['layer']}:{sc['mode']}")
     ctx.count('burst-delivery:' + sc['delivery'][0])
@@ -442,8 +462,15 @@ def run(ctx):
     else:
         for _ in range(160):
             plan.append(gen_scenario(rng, thorough=True))
-    for sc in plan:
-        check(ctx, sc)
+    corpus = []
+    cdir = os.path.join(VERIF, 'corpus', 'C04-burst')
+    if os.path.isdir(cdir):
+        for fn in sorted(os.listdir(cdir)):
+            if fn.endswith('.json'):
+                corpus.append(json.load(open(os.path.join(cdir, fn)))['burst_scenario'])
+    todo = [(sc, 'corpus') for sc in corpus] + [(sc, 'gen') for sc in plan]
+    for (sc, tag), out in zip(todo, run_many([sc for sc, _ in todo])):
+        check(ctx, sc, tag, out=out)
     ctx.notes.append('receive backlogs (harness/c04_burst.py): bursts of 100 - 400 KiB (thorough: up to ~1.5 MiB) in one segment / 64 KiB segments '
                      'back to back / faster than one packet per poll / with the login acceptance, through soup client (pull, callback, '
                      'pull-then-callback), soup server, FIX and ITCH/OUCH/SQF application sessions; judged by the property oracle only '
